@@ -274,7 +274,7 @@ func runRotate(c *ctx) error {
 		}
 	}
 	// a week rotates while the server has no equipment yet; later weeks hold data; restarts
-	if c.part("directed") || c.part("everyrestart") {
+	if c.part("extra") || c.part("everyrestart") {
 		s.WithDisk = true
 		if err := begin("rotate/emptyweek", 1000, 0); err != nil {
 			return err
@@ -314,7 +314,7 @@ func runRotate(c *ctx) error {
 	}
 	// late arrivals: on fresh servers, reports reach the file out of timeslot order across the week boundary; then
 	// the window rotates and the server restarts before the new first week is archived (files of several sizes)
-	if c.part("directed") {
+	if c.part("extra") {
 		s.WithDisk = true
 		orders := [][]uint32{{2017, 2020, 2010, 2025}, {2030, 2011, 2040, 2012, 2050}, {2016, 2015, 2017, 2014, 2018, 2013},
 			{2100, 2000, 2101, 2001, 2102, 2002, 2103}, {2020, 2021, 2022, 1990, 1991, 1992, 1993, 1994, 2023}}
@@ -343,7 +343,7 @@ func runRotate(c *ctx) error {
 	// dense week: the parameter negates about 2% of the eligible slots of the
 	// reply, so an archived week with many slots makes any write-through into
 	// the archive visible
-	if c.part("directed") {
+	if c.part("dense") {
 		s.WithDisk = false
 		if err := begin("rotate/dense", 432, 1); err != nil {
 			return err
